@@ -143,6 +143,7 @@ func (s *hookStore) Close() error   { return s.inner.Close() }
 func (s *hookStore) String() string { return "hook(" + s.inner.String() + ")" }
 
 var errInjected = errors.New("injected store failure")
+var errCtxBound = errors.New("request aborted: context done")
 
 // faultPlan fails the calls whose 1-based per-kind call number is listed.
 type faultPlan struct {
